@@ -26,7 +26,7 @@ Derive == /\ aux = NoAux /\ Complete /\ UNCHANGED <<stack, nodes>>
                         aux' = [kind |-> "mut", e |-> Tree, f |-> f,
                                 g |-> LET gs == Mutations(f) \ {Tree} IN IF gs = {} THEN f ELSE CHOOSE x \in gs : TRUE]
                  [] kd = "fmap" -> Tree.k # "aff" /\ \E mp \in FreshMaps(Tree) : aux' = [kind |-> "map", e |-> Tree, map |-> mp]
-                 [] kd = "imap" -> \E mp \in IdMaps(Tree) : aux' = [kind |-> "map", e |-> Tree, map |-> mp]
+                 [] kd = "imap" -> \E mp \in IdMaps(Tree) \cup SegMaps(Tree) : aux' = [kind |-> "map", e |-> Tree, map |-> mp]
                  [] kd = "pat" -> Tree.k # "aff" /\ \E pt \in Patterns(Tree) : aux' = [kind |-> "pat", e |-> Tree, pat |-> pt.pat, wild |-> pt.wild]
                  [] kd = "patmut" -> Tree.k # "aff" /\ \E pt \in Patterns(Tree) : \E m \in Mutations(Tree) :
                         aux' = [kind |-> "pat", e |-> m, pat |-> pt.pat, wild |-> pt.wild]
